@@ -122,3 +122,53 @@ theorem writeField_pad (arch : Endian) (pf : PField) (w : Nat) (xs : Option (Lis
   simp [List.map_append, List.map_replicate]
 
 end Fit
+
+namespace Fit
+
+/-- arrays of signed elements: two's complement elements, then the base type's invalid value up to
+    the profile length -/
+theorem writeField_signed_short (arch : Endian) (pf : PField) (w : Nat) (zs : Option (List Int))
+    (harr : tcArray pf.tcode = true) (hns : tcBase pf.tcode ≠ Base.string) (hnat : tcKind pf.tcode = .native)
+    (hsize : Base.size (tcBase pf.tcode) = w) (hlen : (zs.getD []).length ≤ pf.length) :
+    writeField arch pf (.sl (.i (8 * w))) (.is zs) =
+      .ok (((zs.getD []).map fun z => arch.enc w (toUnsigned (8 * w) z)).flatten ++
+        (List.replicate (pf.length - (zs.getD []).length) (arch.enc w (Base.invalidNat (tcBase pf.tcode)))).flatten) := by
+  have henc : ∀ ys : List Int, (ys.map Val.i).map (encodeScalar arch pf (.i (8 * w))) =
+      ys.map fun z => (Except.ok (arch.enc w (toUnsigned (8 * w) z)) : Except EncErr Bytes) := by
+    intro ys
+    rw [List.map_map]
+    apply List.map_congr_left
+    intro x _
+    simp only [Function.comp, encodeScalar, hnat, hns, ↓reduceIte, scWidth]
+    have e : 8 * w / 8 = w := by omega
+    rw [e]
+  unfold writeField
+  simp only [harr, Bool.not_true, Bool.false_eq_true, ↓reduceIte, hns, hsize]
+  cases zs with
+  | none =>
+    simp only [Option.getD_none, List.length_nil, Nat.zero_min, List.take_zero, List.map_nil, concatE, Nat.sub_zero,
+      List.flatten_nil, List.nil_append]
+  | some ys =>
+    simp only [Option.getD_some, List.length_map] at hlen ⊢
+    have hmax : min ys.length pf.length = ys.length := Nat.min_eq_left hlen
+    rw [hmax]
+    have htk : (ys.map Val.i).take ys.length = ys.map Val.i := List.take_of_length_le (by simp)
+    rw [htk, henc]
+    have := concatE_all_ok (fun z => arch.enc w (toUnsigned (8 * w) z)) ys
+    rw [this]
+
+theorem writeField_pad_signed (arch : Endian) (pf : PField) (w : Nat) (zs : Option (List Int))
+    (harr : tcArray pf.tcode = true) (hns : tcBase pf.tcode ≠ Base.string) (hnat : tcKind pf.tcode = .native)
+    (hsize : Base.size (tcBase pf.tcode) = w) (hlen : (zs.getD []).length ≤ pf.length)
+    (hinv : toUnsigned (8 * w) (Base.invalidNat (tcBase pf.tcode) : Nat) = Base.invalidNat (tcBase pf.tcode)) :
+    writeField arch pf (.sl (.i (8 * w))) (.is zs) =
+      writeField arch pf (.sl (.i (8 * w))) (.is (some (zs.getD [] ++
+        List.replicate (pf.length - (zs.getD []).length) ((Base.invalidNat (tcBase pf.tcode) : Nat) : Int)))) := by
+  rw [writeField_signed_short arch pf w zs harr hns hnat hsize hlen]
+  rw [writeField_signed_short arch pf w (some _) harr hns hnat hsize (by simp; omega)]
+  simp only [Option.getD_some, List.length_append, List.length_replicate]
+  have e : pf.length - ((zs.getD []).length + (pf.length - (zs.getD []).length)) = 0 := by omega
+  rw [e]
+  simp [List.map_append, List.map_replicate, hinv]
+
+end Fit
